@@ -16,17 +16,37 @@ package swagen30
 //@ func GenerateModelsSpec trusted
 //@ modifies any(elems(openapi3.Schemas)), any(openapi3.Schema), any(openapi3.SchemaRef), any(elems([]string)), any(elems([]any)), any(elems(openapi3.SchemaRefs))
 
-// InterfaceToSchemaRef: assumed (kin-openapi constructors, recursion over type names). A reference to a component
-// that has not been generated yet has no Value; every other result owns a fresh Value.
-//@ func InterfaceToSchemaRef trusted
-//@ modifies any(SchemaRefMap), any(elems(schemaRefMap))
+// InterfaceToSchemaRef: a reference to a component carries the component's schema when it already exists and NO
+// schema when it does not (kin-openapi's validator reports exactly the references without one: C08); every other
+// result owns a fresh schema. Recursion over array/map item types goes through this same contract.
+//@ extern github.com/getkin/kin-openapi/openapi3.NewObjectSchema
+//@ ensures result != nil && fresh(result)
+//@ extern github.com/getkin/kin-openapi/openapi3.NewStringSchema
+//@ ensures result != nil && fresh(result)
+//@ extern github.com/getkin/kin-openapi/openapi3.NewIntegerSchema
+//@ ensures result != nil && fresh(result)
+//@ extern github.com/getkin/kin-openapi/openapi3.NewBoolSchema
+//@ ensures result != nil && fresh(result)
+//@ extern github.com/getkin/kin-openapi/openapi3.NewFloat64Schema
+//@ ensures result != nil && fresh(result)
+//@ extern github.com/getkin/kin-openapi/openapi3.NewArraySchema
+//@ ensures result != nil && fresh(result)
+//@ extern github.com/getkin/kin-openapi/openapi3.NewSchema
+//@ ensures result != nil && fresh(result)
+//@ func InterfaceToSchemaRef props C08,C07,C14
+//@ requires openapi != nil && openapi.Components != nil
+//@ modifies schemaRefMap, any(elems(schemaRefMap))
 //@ ensures result != nil && implies(result.Ref == "", result.Value != nil)
+//@ ensures isRef: (result.Ref != "") == (swagtool.ToOpenApiType(interfaceType) == "object" && !swagtool.IsGenericObject(interfaceType))
+//@ ensures refName: implies(result.Ref != "", result.Ref == "#/components/schemas/" + interfaceType)
+//@ ensures dangling: implies(result.Ref != "" && openapi.Components.Schemas[interfaceType] == nil, result.Value == nil)
+//@ ensures resolved: implies(result.Ref != "" && openapi.Components.Schemas[interfaceType] != nil, result.Value == openapi.Components.Schemas[interfaceType].Value)
 
 //@ func generateStructSpec props C07,C14 havocs
 //@ requires openapi != nil && openapi.Components != nil && openapi.Components.Schemas != nil
 
 //@ func GenerateSpec props C08,C20,C01,C14
-//@ modifies any(openapi3.PathItem), any(openapi3.Paths), any(openapi3.Responses), any(definitions.TypeMetadata.Name), any(elems([]*openapi3.ParameterRef)), any(openapi3.RequestBody), any(openapi3.RequestBodyRef), any(elems(openapi3.Content)), any(elems(openapi3.Schemas)), any(elems([]string)), any(openapi3.Schema.Description), any(openapi3.Schema.Required), any(openapi3.Schema.Format), any(openapi3.Schema.Min), any(openapi3.Schema.Max), any(openapi3.Schema.ExclusiveMin), any(openapi3.Schema.ExclusiveMax), any(openapi3.Schema.MinLength), any(openapi3.Schema.MaxLength), any(openapi3.Schema.Pattern), any(openapi3.Schema.MinItems), any(openapi3.Schema.MaxItems), any(openapi3.Schema.UniqueItems), any(openapi3.Schema.Enum), any(SchemaRefMap), any(elems(schemaRefMap)), any(elems([]any)), any(openapi3.Schema), any(openapi3.SchemaRef), any(elems(openapi3.SchemaRefs)), any(elems(map[string]interface{})), any(elems([]interface{}))
+//@ modifies any(openapi3.PathItem), any(openapi3.Paths), any(openapi3.Responses), any(definitions.TypeMetadata.Name), any(elems([]*openapi3.ParameterRef)), any(openapi3.RequestBody), any(openapi3.RequestBodyRef), any(elems(openapi3.Content)), any(elems(openapi3.Schemas)), any(elems([]string)), any(openapi3.Schema.Description), any(openapi3.Schema.Required), any(openapi3.Schema.Format), any(openapi3.Schema.Min), any(openapi3.Schema.Max), any(openapi3.Schema.ExclusiveMin), any(openapi3.Schema.ExclusiveMax), any(openapi3.Schema.MinLength), any(openapi3.Schema.MaxLength), any(openapi3.Schema.Pattern), any(openapi3.Schema.MinItems), any(openapi3.Schema.MaxItems), any(openapi3.Schema.UniqueItems), any(openapi3.Schema.Enum), any(SchemaRefMap), any(elems(schemaRefMap)), any(elems([]any)), any(openapi3.Schema), any(openapi3.SchemaRef), any(elems(openapi3.SchemaRefs)), any(elems(map[string]interface{})), any(elems([]interface{})), schemaRefMap
 //@ requires config != nil
 //@ requires swagtool.emittable(defs)
 //@ requires swagtool.uniqueSchemes(config.SecuritySchemes)
@@ -106,7 +126,8 @@ package swagen30
 //@ ensures specParam.Value.Deprecated == (old(specParam.Value.Deprecated) || routeParam.Deprecation.Deprecated)
 
 //@ func createRouteParam props C06,C14
-//@ modifies any(openapi3.Schema.Format), any(openapi3.Schema.Min), any(openapi3.Schema.Max), any(openapi3.Schema.ExclusiveMin), any(openapi3.Schema.ExclusiveMax), any(openapi3.Schema.MinLength), any(openapi3.Schema.MaxLength), any(openapi3.Schema.Pattern), any(openapi3.Schema.MinItems), any(openapi3.Schema.MaxItems), any(openapi3.Schema.UniqueItems), any(openapi3.Schema.Enum), any(SchemaRefMap), any(elems(schemaRefMap)), any(elems([]any))
+//@ requires openapi != nil && openapi.Components != nil
+//@ modifies any(openapi3.Schema.Format), any(openapi3.Schema.Min), any(openapi3.Schema.Max), any(openapi3.Schema.ExclusiveMin), any(openapi3.Schema.ExclusiveMax), any(openapi3.Schema.MinLength), any(openapi3.Schema.MaxLength), any(openapi3.Schema.Pattern), any(openapi3.Schema.MinItems), any(openapi3.Schema.MaxItems), any(openapi3.Schema.UniqueItems), any(openapi3.Schema.Enum), any(SchemaRefMap), any(elems(schemaRefMap)), any(elems([]any)), schemaRefMap
 //@ ensures result != nil && fresh(result) && result.Value != nil && fresh(result.Value)
 //@ ensures result.Value.Name == param.NameInSchema && result.Value.In == strings.ToLower(string(param.PassedIn)) && result.Value.Description == param.Description
 //@ ensures result.Value.Required == swagtool.IsFieldRequired(param.Validator)
@@ -116,11 +137,13 @@ package swagen30
 //@ ensures result != nil
 
 //@ func createContentWithSchemaRef props C06,C14
-//@ modifies any(openapi3.Schema.Format), any(openapi3.Schema.Min), any(openapi3.Schema.Max), any(openapi3.Schema.ExclusiveMin), any(openapi3.Schema.ExclusiveMax), any(openapi3.Schema.MinLength), any(openapi3.Schema.MaxLength), any(openapi3.Schema.Pattern), any(openapi3.Schema.MinItems), any(openapi3.Schema.MaxItems), any(openapi3.Schema.UniqueItems), any(openapi3.Schema.Enum), any(SchemaRefMap), any(elems(schemaRefMap)), any(elems([]any))
+//@ requires openapi != nil && openapi.Components != nil
+//@ modifies any(openapi3.Schema.Format), any(openapi3.Schema.Min), any(openapi3.Schema.Max), any(openapi3.Schema.ExclusiveMin), any(openapi3.Schema.ExclusiveMax), any(openapi3.Schema.MinLength), any(openapi3.Schema.MaxLength), any(openapi3.Schema.Pattern), any(openapi3.Schema.MinItems), any(openapi3.Schema.MaxItems), any(openapi3.Schema.UniqueItems), any(openapi3.Schema.Enum), any(SchemaRefMap), any(elems(schemaRefMap)), any(elems([]any)), schemaRefMap
 //@ ensures result != nil
 
 //@ func createRequestBodyParam props C06,C14
-//@ modifies any(openapi3.Schema.Format), any(openapi3.Schema.Min), any(openapi3.Schema.Max), any(openapi3.Schema.ExclusiveMin), any(openapi3.Schema.ExclusiveMax), any(openapi3.Schema.MinLength), any(openapi3.Schema.MaxLength), any(openapi3.Schema.Pattern), any(openapi3.Schema.MinItems), any(openapi3.Schema.MaxItems), any(openapi3.Schema.UniqueItems), any(openapi3.Schema.Enum), any(SchemaRefMap), any(elems(schemaRefMap)), any(elems([]any))
+//@ requires openapi != nil && openapi.Components != nil
+//@ modifies any(openapi3.Schema.Format), any(openapi3.Schema.Min), any(openapi3.Schema.Max), any(openapi3.Schema.ExclusiveMin), any(openapi3.Schema.ExclusiveMax), any(openapi3.Schema.MinLength), any(openapi3.Schema.MaxLength), any(openapi3.Schema.Pattern), any(openapi3.Schema.MinItems), any(openapi3.Schema.MaxItems), any(openapi3.Schema.UniqueItems), any(openapi3.Schema.Enum), any(SchemaRefMap), any(elems(schemaRefMap)), any(elems([]any)), schemaRefMap
 //@ ensures result != nil && fresh(result) && result.Value != nil && fresh(result.Value)
 //@ ensures result.Value.Required == swagtool.IsFieldRequired(param.Validator) && result.Value.Description == param.Description && result.Value.Content != nil
 
@@ -130,9 +153,10 @@ package swagen30
 // parameters == the method's path/query/header parameters, in signature order; context parameters never appear;
 // a @Body parameter becomes the request body under the same requiredness rule
 //@ func generateParams props C06,C14
+//@ requires openapi != nil && openapi.Components != nil
 //@ requires operation != nil && len(operation.Parameters) == 0 && fresh(operation.Parameters) && operation.RequestBody == nil
 //@ requires forall(i, 0, len(route.FuncParams), forall(j, 0, len(route.FuncParams), !(!route.FuncParams[i].IsContext && !route.FuncParams[j].IsContext && route.FuncParams[i].PassedIn == definitions.PassedInBody && route.FuncParams[j].PassedIn == definitions.PassedInForm)))
-//@ modifies operation.Parameters, operation.RequestBody, any(elems(operation.Parameters)), any(openapi3.Schema.Format), any(openapi3.Schema.Min), any(openapi3.Schema.Max), any(openapi3.Schema.ExclusiveMin), any(openapi3.Schema.ExclusiveMax), any(openapi3.Schema.MinLength), any(openapi3.Schema.MaxLength), any(openapi3.Schema.Pattern), any(openapi3.Schema.MinItems), any(openapi3.Schema.MaxItems), any(openapi3.Schema.UniqueItems), any(openapi3.Schema.Enum), any(openapi3.Schema.Description), any(openapi3.Schema.Required), any(SchemaRefMap), any(elems(schemaRefMap)), any(elems([]any)), any(openapi3.RequestBody), any(openapi3.RequestBodyRef), any(elems(openapi3.Content)), any(elems(openapi3.Schemas)), any(elems([]string))
+//@ modifies operation.Parameters, operation.RequestBody, any(elems(operation.Parameters)), any(openapi3.Schema.Format), any(openapi3.Schema.Min), any(openapi3.Schema.Max), any(openapi3.Schema.ExclusiveMin), any(openapi3.Schema.ExclusiveMax), any(openapi3.Schema.MinLength), any(openapi3.Schema.MaxLength), any(openapi3.Schema.Pattern), any(openapi3.Schema.MinItems), any(openapi3.Schema.MaxItems), any(openapi3.Schema.UniqueItems), any(openapi3.Schema.Enum), any(openapi3.Schema.Description), any(openapi3.Schema.Required), any(SchemaRefMap), any(elems(schemaRefMap)), any(elems([]any)), any(openapi3.RequestBody), any(openapi3.RequestBodyRef), any(elems(openapi3.Content)), any(elems(openapi3.Schemas)), any(elems([]string)), schemaRefMap
 //@ ensures count: len(operation.Parameters) == swagtool.countRouteParams(route, len(route.FuncParams))
 //@ ensures order: forall(k, 0, len(route.FuncParams), implies(swagtool.isRouteParam(route.FuncParams[k]), documents(operation.Parameters[swagtool.countRouteParams(route, k)], route.FuncParams[k])))
 //@ loop 0 invariant 0 <= _n && _n <= len(route.FuncParams) && len(operation.Parameters) == swagtool.countRouteParams(route, _n) && (fresh(operation.Parameters) || true)
@@ -148,30 +172,34 @@ package swagen30
 
 // Form fields become properties of one urlencoded object; the operation's parameter list is not touched.
 //@ func createRequestFormParam props C06,C14
+//@ requires openapi != nil && openapi.Components != nil
 //@ requires operation != nil
 //@ requires operation.RequestBody == nil || formShaped(operation.RequestBody)
 //@ ensures formShaped(operation.RequestBody)
-//@ modifies operation.RequestBody, any(openapi3.Schema.Format), any(openapi3.Schema.Min), any(openapi3.Schema.Max), any(openapi3.Schema.ExclusiveMin), any(openapi3.Schema.ExclusiveMax), any(openapi3.Schema.MinLength), any(openapi3.Schema.MaxLength), any(openapi3.Schema.Pattern), any(openapi3.Schema.MinItems), any(openapi3.Schema.MaxItems), any(openapi3.Schema.UniqueItems), any(openapi3.Schema.Enum), any(openapi3.Schema.Description), any(openapi3.Schema.Required), any(SchemaRefMap), any(elems(schemaRefMap)), any(elems([]any)), any(elems(openapi3.Schemas)), any(elems([]string))
+//@ modifies operation.RequestBody, any(openapi3.Schema.Format), any(openapi3.Schema.Min), any(openapi3.Schema.Max), any(openapi3.Schema.ExclusiveMin), any(openapi3.Schema.ExclusiveMax), any(openapi3.Schema.MinLength), any(openapi3.Schema.MaxLength), any(openapi3.Schema.Pattern), any(openapi3.Schema.MinItems), any(openapi3.Schema.MaxItems), any(openapi3.Schema.UniqueItems), any(openapi3.Schema.Enum), any(openapi3.Schema.Description), any(openapi3.Schema.Required), any(SchemaRefMap), any(elems(schemaRefMap)), any(elems([]any)), any(elems(openapi3.Schemas)), any(elems([]string)), schemaRefMap
 
 
 // ---- responses and the per-controller loop (C01: hidden routes are never registered, every other route is) ----
 //@ func createErrorResponse props C06,C14
+//@ requires openapi != nil && openapi.Components != nil
 //@ requires len(route.Responses) >= 1
-//@ modifies any(definitions.TypeMetadata.Name), any(openapi3.Schema.Format), any(openapi3.Schema.Min), any(openapi3.Schema.Max), any(openapi3.Schema.ExclusiveMin), any(openapi3.Schema.ExclusiveMax), any(openapi3.Schema.MinLength), any(openapi3.Schema.MaxLength), any(openapi3.Schema.Pattern), any(openapi3.Schema.MinItems), any(openapi3.Schema.MaxItems), any(openapi3.Schema.UniqueItems), any(openapi3.Schema.Enum), any(SchemaRefMap), any(elems(schemaRefMap)), any(elems([]any))
+//@ modifies any(definitions.TypeMetadata.Name), any(openapi3.Schema.Format), any(openapi3.Schema.Min), any(openapi3.Schema.Max), any(openapi3.Schema.ExclusiveMin), any(openapi3.Schema.ExclusiveMax), any(openapi3.Schema.MinLength), any(openapi3.Schema.MaxLength), any(openapi3.Schema.Pattern), any(openapi3.Schema.MinItems), any(openapi3.Schema.MaxItems), any(openapi3.Schema.UniqueItems), any(openapi3.Schema.Enum), any(SchemaRefMap), any(elems(schemaRefMap)), any(elems([]any)), schemaRefMap
 //@ ensures result != nil && fresh(result) && result.Value != nil
 
 // (assumed: the body stores &route.ResponseDescription, an interior pointer of the parameter copy - outside the subset)
 //@ func createResponseSuccess trusted
-//@ modifies any(openapi3.Schema.Format), any(openapi3.Schema.Min), any(openapi3.Schema.Max), any(openapi3.Schema.ExclusiveMin), any(openapi3.Schema.ExclusiveMax), any(openapi3.Schema.MinLength), any(openapi3.Schema.MaxLength), any(openapi3.Schema.Pattern), any(openapi3.Schema.MinItems), any(openapi3.Schema.MaxItems), any(openapi3.Schema.UniqueItems), any(openapi3.Schema.Enum), any(SchemaRefMap), any(elems(schemaRefMap)), any(elems([]any))
+//@ requires openapi != nil && openapi.Components != nil
+//@ modifies any(openapi3.Schema.Format), any(openapi3.Schema.Min), any(openapi3.Schema.Max), any(openapi3.Schema.ExclusiveMin), any(openapi3.Schema.ExclusiveMax), any(openapi3.Schema.MinLength), any(openapi3.Schema.MaxLength), any(openapi3.Schema.Pattern), any(openapi3.Schema.MinItems), any(openapi3.Schema.MaxItems), any(openapi3.Schema.UniqueItems), any(openapi3.Schema.Enum), any(SchemaRefMap), any(elems(schemaRefMap)), any(elems([]any)), schemaRefMap
 //@ ensures result != nil && fresh(result) && result.Value != nil && result.Value.Description != nil && *result.Value.Description == route.ResponseDescription
 
 //@ spec hidden30(r definitions.RouteMetadata) bool = r.Hiding.Type == definitions.HideMethodAlways
 //@ rec countVisible30(def definitions.ControllerMetadata, n int) int = ite(n <= 0, 0, countVisible30(def, n-1) + ite(hidden30(def.Routes[n-1]), 0, 1))
 
 //@ func generateControllerSpec props C01,C11,C14
+//@ requires openapi != nil && openapi.Components != nil
 //@ requires openapi != nil && openapi.Paths != nil && config != nil
 //@ requires forall(k, 0, len(def.Routes), len(def.Routes[k].Responses) >= 1 && swagtool.noBodyFormMix(def.Routes[k]))
-//@ modifies any(openapi3.PathItem), any(openapi3.Paths), any(openapi3.Responses), any(definitions.TypeMetadata.Name), any(elems([]*openapi3.ParameterRef)), any(openapi3.RequestBody), any(openapi3.RequestBodyRef), any(elems(openapi3.Content)), any(elems(openapi3.Schemas)), any(elems([]string)), any(openapi3.Schema.Description), any(openapi3.Schema.Required), any(openapi3.Schema.Format), any(openapi3.Schema.Min), any(openapi3.Schema.Max), any(openapi3.Schema.ExclusiveMin), any(openapi3.Schema.ExclusiveMax), any(openapi3.Schema.MinLength), any(openapi3.Schema.MaxLength), any(openapi3.Schema.Pattern), any(openapi3.Schema.MinItems), any(openapi3.Schema.MaxItems), any(openapi3.Schema.UniqueItems), any(openapi3.Schema.Enum), any(SchemaRefMap), any(elems(schemaRefMap)), any(elems([]any))
+//@ modifies any(openapi3.PathItem), any(openapi3.Paths), any(openapi3.Responses), any(definitions.TypeMetadata.Name), any(elems([]*openapi3.ParameterRef)), any(openapi3.RequestBody), any(openapi3.RequestBodyRef), any(elems(openapi3.Content)), any(elems(openapi3.Schemas)), any(elems([]string)), any(openapi3.Schema.Description), any(openapi3.Schema.Required), any(openapi3.Schema.Format), any(openapi3.Schema.Min), any(openapi3.Schema.Max), any(openapi3.Schema.ExclusiveMin), any(openapi3.Schema.ExclusiveMax), any(openapi3.Schema.MinLength), any(openapi3.Schema.MaxLength), any(openapi3.Schema.Pattern), any(openapi3.Schema.MinItems), any(openapi3.Schema.MaxItems), any(openapi3.Schema.UniqueItems), any(openapi3.Schema.Enum), any(SchemaRefMap), any(elems(schemaRefMap)), any(elems([]any)), schemaRefMap
 //@ mayemit opRegistered, pathSet
 //@ ensures hiddenSkipped: implies(result == nil, evcount(opRegistered) == old(evcount(opRegistered)) + countVisible30(def, len(def.Routes)))
 //@ ensures last: implies(result == nil && len(def.Routes) > 0 && !hidden30(def.Routes[len(def.Routes)-1]), evlast(opRegistered, 0) == string(def.Routes[len(def.Routes)-1].HttpVerb))
@@ -182,9 +210,10 @@ package swagen30
 //@ rec sumVisible30(defs []definitions.ControllerMetadata, n int) int = ite(n <= 0, 0, sumVisible30(defs, n-1) + countVisible30(defs[n-1], len(defs[n-1].Routes)))
 // All controllers: exactly the routes that are not hidden are registered (one registration per such route).
 //@ func GenerateControllersSpec props C01,C11,C14
+//@ requires openapi != nil && openapi.Components != nil
 //@ requires openapi != nil && openapi.Paths != nil && config != nil
 //@ requires swagtool.emittable(defs)
-//@ modifies any(openapi3.PathItem), any(openapi3.Paths), any(openapi3.Responses), any(definitions.TypeMetadata.Name), any(elems([]*openapi3.ParameterRef)), any(openapi3.RequestBody), any(openapi3.RequestBodyRef), any(elems(openapi3.Content)), any(elems(openapi3.Schemas)), any(elems([]string)), any(openapi3.Schema.Description), any(openapi3.Schema.Required), any(openapi3.Schema.Format), any(openapi3.Schema.Min), any(openapi3.Schema.Max), any(openapi3.Schema.ExclusiveMin), any(openapi3.Schema.ExclusiveMax), any(openapi3.Schema.MinLength), any(openapi3.Schema.MaxLength), any(openapi3.Schema.Pattern), any(openapi3.Schema.MinItems), any(openapi3.Schema.MaxItems), any(openapi3.Schema.UniqueItems), any(openapi3.Schema.Enum), any(SchemaRefMap), any(elems(schemaRefMap)), any(elems([]any))
+//@ modifies any(openapi3.PathItem), any(openapi3.Paths), any(openapi3.Responses), any(definitions.TypeMetadata.Name), any(elems([]*openapi3.ParameterRef)), any(openapi3.RequestBody), any(openapi3.RequestBodyRef), any(elems(openapi3.Content)), any(elems(openapi3.Schemas)), any(elems([]string)), any(openapi3.Schema.Description), any(openapi3.Schema.Required), any(openapi3.Schema.Format), any(openapi3.Schema.Min), any(openapi3.Schema.Max), any(openapi3.Schema.ExclusiveMin), any(openapi3.Schema.ExclusiveMax), any(openapi3.Schema.MinLength), any(openapi3.Schema.MaxLength), any(openapi3.Schema.Pattern), any(openapi3.Schema.MinItems), any(openapi3.Schema.MaxItems), any(openapi3.Schema.UniqueItems), any(openapi3.Schema.Enum), any(SchemaRefMap), any(elems(schemaRefMap)), any(elems([]any)), schemaRefMap
 //@ mayemit opRegistered, pathSet
 //@ ensures count: implies(result == nil, evcount(opRegistered) == old(evcount(opRegistered)) + sumVisible30(defs, len(defs)))
 //@ loop 0 invariant 0 <= _n && _n <= len(defs) && openapi.Paths != nil && evcount(opRegistered) == old(evcount(opRegistered)) + sumVisible30(defs, _n)
